@@ -400,6 +400,15 @@ pub fn run_stream(spec: &StreamSpec) -> Option<StreamResult> {
     if let Some(h) = head {
         pool.push(h);
     }
+    // one stream in three runs on a Translator that has already translated (and detected) a small TOML
+    // input: whatever the translator remembers from it must not delay or buffer the stream
+    let warm_up: Option<Vec<u8>> = if spec.pool_seed % 3 == 0 {
+        let o = run_slice(b"first = 1\n", None, spec.to);
+        if o.verdict.is_ok() { Some(o.out) } else { None }
+    } else {
+        None
+    };
+    let prefix_len = warm_up.as_ref().map(|p| p.len() as u64).unwrap_or(0);
     let clock = Rc::new(RefCell::new(Clock { written: 0, hash: FNV_INIT, write_calls: 0 }));
     let report = Rc::new(RefCell::new(LagReport::default()));
     let seq_seed = spec.pool_seed ^ 0x5eed;
@@ -412,7 +421,7 @@ pub fn run_stream(spec: &StreamSpec) -> Option<StreamResult> {
         recent: VecDeque::new(),
         generated: 0,
         delivered: 0,
-        required: 0,
+        required: prefix_len,
         docs_delivered: 0,
         docs_required: 0,
         packets: spec.packets,
@@ -428,13 +437,23 @@ pub fn run_stream(spec: &StreamSpec) -> Option<StreamResult> {
     let from = if spec.detect { None } else { Some(spec.src.xt()) };
     let to = spec.to.xt();
     let base = crate::alloc::reset_peak();
-    let verdict = guarded(|| xt::translate_reader(reader, from, to, writer));
+    let verdict = guarded(|| {
+        let mut tr = xt::Translator::new(writer, to);
+        if warm_up.is_some() {
+            tr.translate_slice(b"first = 1\n", None)?;
+        }
+        tr.translate_reader(reader, from)?;
+        tr.flush().map_err(xt::Error::from)
+    });
     let peak = crate::alloc::peak() - base;
     // expected totals, recomputed from the same sequence
     let mut r = Rng::new(seq_seed);
-    let mut expected = 0u64;
+    let mut expected = prefix_len;
     let mut input_bytes = 0u64;
-    let mut h = FNV_INIT;
+    let mut h = match &warm_up {
+        Some(p) => fnv_feed(FNV_INIT, p),
+        None => FNV_INIT,
+    };
     for d in 0..spec.n_docs {
         let i = if d == 0 && has_head { n_random } else { r.below(n_random) };
         expected += pool[i].1;
